@@ -9,9 +9,13 @@ Import ListNotations.
 
 (* Basis.btype *)
 Inductive btype := BPauli | BGGM | BCustom.
-(* the guard of the single-qubit shortcut: d == 2 and pulse.basis.btype in ('Pauli', 'GGM') *)
-Definition use_shortcut (d : nat) (bt : btype) : bool :=
-  Nat.eqb d 2 && match bt with BPauli | BGGM => true | BCustom => false end.
+(* the guard of the single-qubit shortcut (after fix 63446ae):
+     d == 2 and pulse.basis.btype in ('Pauli', 'GGM')
+     and pulse.basis.shape == (4, 2, 2) and pulse.basis == Basis.pauli(1)
+   [is_pauli1] is the verdict of the last two conjuncts (Basis.__eq__ is np.allclose with the
+   basis' own atol; the model reads it as equality of the entries) *)
+Definition use_shortcut (d : nat) (bt : btype) (is_pauli1 : bool) : bool :=
+  Nat.eqb d 2 && match bt with BPauli | BGGM => true | BCustom => false end && is_pauli1.
 
 Section Cumulant.
 Context {T B : Type} (Op : Ops T B).
@@ -65,11 +69,12 @@ Definition diag_idx (i : nat) : list bool := false :: iter_rot (i - 1) [false; t
 (* decay_amplitudes[..., diag_idx, diag_idx].sum(axis=-1) *)
 Definition masked_diag_sum (n : nat) (mask : list bool) (G : RM) : T :=
   sumn Op n (fun m => if nth m mask false then rmget G m m else o0 Op).
-(* N = n:  K[1:,1:] off-diagonal = Gamma ; K_ii = - masked diagonal sum ;
+(* N = n:  K[1:,1:] off-diagonal = Gamma^T (decay_amplitudes.swapaxes(-1, -2), fix 72be0f3) ;
+   K_ii = - masked diagonal sum ;
    second order: K[1:,1:] -= Delta[1:,1:] ; K[1:,1:] += Delta[1:,1:]^T *)
 Definition cumulant_shortcut_fn (n : nat) (second : bool) (G D : RM) (i j : nat) : T :=
   if (Nat.eqb i 0 || Nat.eqb j 0) then o0 Op else
-  let first := if Nat.eqb i j then oneg Op (masked_diag_sum n (diag_idx i) G) else rmget G i j in
+  let first := if Nat.eqb i j then oneg Op (masked_diag_sum n (diag_idx i) G) else rmget G j i in
   if second then oadd Op (osub Op first (rmget D i j)) (rmget D j i) else first.
 Definition cumulant_shortcut (n : nat) (second : bool) (G D : RM) : RM :=
   rmbuild n n (cumulant_shortcut_fn n second G D).
@@ -118,8 +123,12 @@ Definition projected_choi (n : nat) (S : RM) (basis : list Matc) : Matc :=
   mmul Op (d * d) Qproj (mmul Op (d * d) (liouville_to_choi n S basis) Qproj).
 
 (* verdict of liouville_is_CP / liouville_is_cCP from the eigenvalues D (eigh oracle):
-   (D >= -atol).all()  -- as a branch-free count of violating eigenvalues *)
-Definition cp_violations (atol : T) (D : list T) : T :=
-  sumlist Op (map (fun x => oite Op (ogt Op (oneg Op atol) x) (o1 Op) (o0 Op)) D).
+   tol = atol or basis._atol * max(1, |D|.max())  (fix ee93ac7) ;  (D >= -tol).all()
+   -- as a branch-free count of violating eigenvalues *)
+Definition omax (a b : T) : T := oite Op (ogt Op a b) a b.
+Definition cp_default_tol (basis_atol : T) (D : list T) : T :=
+  omul Op basis_atol (fold_left omax (map (oabs Op) D) (o1 Op)).
+Definition cp_violations (tol : T) (D : list T) : T :=
+  sumlist Op (map (fun x => oite Op (ogt Op (oneg Op tol) x) (o1 Op) (o0 Op)) D).
 
 End Cumulant.
